@@ -515,7 +515,7 @@ static uint64_t mix(uint64_t x) {
   return x ^ (x >> 31);
 }
 
-static uint64_t g_soft = 400000, g_hard = 4000000;
+static uint64_t g_soft = 400000, g_hard = 4000000, g_base_seed;
 
 static uint64_t base_watch_t[VS_MAX_THREADS], base_points_t[VS_MAX_THREADS];
 static void derive_cfg(vs_config_t* c, uint64_t base_seed, int i, uint64_t base_points, uint64_t base_watch, int tso_mode, char* sname,
@@ -622,7 +622,7 @@ static void print_violation(FILE* f, const vs_result_t* r, const vs_config_t* c,
   json_str(f, r->kind);
   fprintf(f, ",\"detail\":");
   json_str(f, r->detail);
-  fprintf(f, ",\"sched_index\":%d,\"seed\":%llu,\"strategy\":", idx, (unsigned long long)c->seed);
+  fprintf(f, ",\"sched_index\":%d,\"base_seed\":%llu,\"seed\":%llu,\"strategy\":", idx, (unsigned long long)g_base_seed, (unsigned long long)c->seed);
   json_str(f, sname);
   fprintf(f, ",\"tso\":%d,\"points\":%llu,\"decisions_overflow\":%d,\"decisions\":[", c->tso, (unsigned long long)r->points, r->decisions_overflow);
   for (uint32_t i = 0; i < r->n_decisions; i++) fprintf(f, "%s[%u,%u]", i ? "," : "", r->dec_point[i], r->dec_tid[i]);
@@ -713,7 +713,7 @@ int main(int argc, char** argv) {
     return 2;
   }
   uint64_t base_seed = 1;
-  int nsched = 32, tso_mode = 0, do_min = 0, stop_first = 1, check_replay = 0, replay_mismatch = 0;
+  int nsched = 32, tso_mode = 0, do_min = 0, stop_first = 1, check_replay = 0, replay_mismatch = 0, only_index = -1;
   const char* replay = 0;
   uint64_t replay_seed = 0;
   int replay_tso = 0;
@@ -727,10 +727,12 @@ int main(int argc, char** argv) {
     else if (!strcmp(argv[i], "--minimise")) do_min = 1;
     else if (!strcmp(argv[i], "--all")) stop_first = 0;
     else if (!strcmp(argv[i], "--check-replay")) check_replay = 1;
+    else if (!strcmp(argv[i], "--only") && i + 1 < argc) only_index = atoi(argv[++i]);
     else if (!strcmp(argv[i], "--soft") && i + 1 < argc) g_soft = strtoull(argv[++i], 0, 10);
     else if (!strcmp(argv[i], "--hard") && i + 1 < argc) g_hard = strtoull(argv[++i], 0, 10);
     else if (!strcmp(argv[i], "--wall") && i + 1 < argc) g_wall_limit = atof(argv[++i]);
   }
+  g_base_seed = base_seed;
   parse_case(argv[1]);
   H = find_harness(g_case.harness);
   if (!H) {
@@ -787,7 +789,9 @@ int main(int argc, char** argv) {
   int vidx = -1;
   agg_t strat[32];
   int n_strat = 0;
+  if (only_index >= 0 && nsched <= only_index) nsched = only_index + 1;
   for (int i = 0; i < nsched; i++) {
+    if (only_index >= 0 && i != 0 && i != only_index) continue;  // schedule 0 supplies the length estimates the others are derived from
     vs_config_t c;
     char sname[48];
     derive_cfg(&c, base_seed, i, base_points, base_watch, tso_mode, sname, sizeof sname);
